@@ -121,7 +121,12 @@ Definition touch (l : loc) (now : Z) (s : state) : state :=
 Definition get_entry (E : env) (d k : bytes) (now : Z) (s : state) : option ent :=
   match newest (gather E d k s) with
   | Some e =>
-    let idle_now := match lookup (ploc E d k) s with Some p => idle E d p now | None => false end in
+    (* getOnCluster asks isKeyIdle AFTER lookupOnThisNode has read the owner's copy, and that read (Table.Get) stamps
+       the last access with the current time: the idle test looks at the fresh stamp *)
+    let idle_now := match lookup (ploc E d k) s with
+                    | Some p => idle E d {| ev := ev p; ettl := ettl p; ets := ets p; ela := now |} now
+                    | None => false
+                    end in
     if visible e now && negb idle_now then Some e else None
   | None => None
   end.
